@@ -12,6 +12,48 @@ ENGINES = [
      "evidence writer, known-findings classifier"},
 ]
 CHECKS = {
+    "C01": {
+        "technique": "runtime monitor with reference model: generated specs built through the public API under random construction strategies, snapshot-equality oracle across save/load generations, deep_eq both ways, message-level re-save comparison",
+        "text": "Held on every generated self-contained IR of this run (0-3 modules, all boundary classes of the quantifier tracked as a checklist in evidence, ~50 construction routes): loaded == saved by canonical snapshot of public attributes incl. decoded AuxData, deep_eq both directions, re-saved file equal as a normalised message, up to 3 generations. Exploration: sizes bounded (<=9 children per collection), so size-dependent defects are out of reach.",
+        "design_ref": "DESIGN.md section 5 C01",
+        "note": "Trusts gtmon/irbuild.snapshot (public attributes only) as the meaning of observable content, the mini-protoc build of the schema, and the protobuf runtime.",
+    },
+    "C02": {
+        "technique": "runtime monitor against an independent contract table: written bytes parsed with generated classes and compared field by field; foreign messages assembled by descriptor reflection and loaded; both protobuf backends in separate processes, cross-read",
+        "text": "Each direction judged on its own against gtmon/contract.py: writer (header bytes, has_address, payload one-of, enum numbers by schema constant name, flags, label presence, vertices = all CFG nodes, 16-byte UUIDs) and reader (messages never produced by the Python writer: has_address=false with address set, shuffled repeated fields, duplicate flags, arbitrary vertices, all-default label, unset one-ofs); every enum constant of the table is swept deterministically; upb and pure-Python backends, files of one read by the other.",
+        "design_ref": "DESIGN.md section 5 C02",
+        "note": "Trusts the hand-written contract table and the protobuf runtimes; references stay inside their module.",
+    },
+    "C07": {
+        "technique": "runtime monitor on Serialization.encode/decode: generated (type tree, value) pairs, normal-form equality with independent float32 rounding, container-class and node-identity checks, consumption observed by embedding before a sentinel / between neighbours, save/load cycle of AuxData",
+        "text": "Held on ~60k generated values per quick run over all 20 codec names nested to depth 4: integer bounds of every width, multi-byte/NUL/delimiter strings, NaN/inf/-0.0/subnormals, empty and nested containers, every variant alternative, UUID/Offset naming attached, detached and unknown nodes; decoder consumption checked through sentinels. Exploration of an infinite input space.",
+        "design_ref": "DESIGN.md section 5 C07",
+        "note": "Value domain = values representable in this API's decoded form (hashable set elements/map keys without NaN, 'float' inside binary32 range); binary32 reference is ctypes.c_float.",
+    },
+    "C08": {
+        "technique": "differential runtime monitor: API encoder vs independent reference encoder byte for byte, reference decoder on API bytes, API decoder on foreign (reordered) bytes, and the repository's own Java codecs compiled unchanged and driven in a JVM (decode, re-encode, decode back in Python)",
+        "text": "Held on ~48k generated values per quick run: bytes identical to gtmon/refcodec.py (written from the format comment), foreign element orders decode to the same value, and for the Java-supported subset (~80% of cases) the Java codec decodes the API's bytes to the same value with nothing left over and its re-encoding decodes back in Python.",
+        "design_ref": "DESIGN.md section 5 C08",
+        "note": "Trusts gtmon/refcodec.py as the statement of the documented format; Java cross-check is skipped (and said so in evidence) if javac/java are unusable; C++/Lisp implementations cannot be built here.",
+    },
+    "C09": {
+        "technique": "runtime monitor on loaded IRs: identity ('is') of every reference against objects found by walking the containment tree; negative files with one dangling/ill-typed reference must raise DeserializationError",
+        "text": "Held on every reference of every loaded IR of this run (symbol referents, entry points, edge endpoints incl. block edge views, expression symbols, AuxData UUID/Offset entries at IR and module level read right after load), for files written by the API and for foreign messages; all 7 reference kinds x {missing, each wrong node kind} rejected with DeserializationError (52 shapes seen per quick run).",
+        "design_ref": "DESIGN.md section 5 C09",
+        "note": "Negatives use well-formed 16-byte UUIDs; references stay inside their module.",
+    },
+    "C17": {
+        "technique": "fault enumeration at the loader boundary: every truncation, every single-bit flip of small seed files (sampled above), byte substitutions, 8x256 header bytes, header/version rules, structural faults by message editing; coherence oracle (world check, typed references, re-save) on every returned IR; CPU-time bound per load",
+        "text": "Per seed file every cut point and every header byte value are enumerated completely, bit flips completely up to the size bound; ~125k fault cases per quick run. Every accepted file's IR passes the C03/C04/C10 world check, has typed references, stored bytes <= size and saves again; header faults always raise ValueError; no load exceeded the CPU bound.",
+        "design_ref": "DESIGN.md section 5 C17",
+        "note": "'Never hangs' is decided as returns/raises within 30 s CPU for files <= 64 KiB; multi-byte corruptions are only sampled through structural faults.",
+    },
+    "C18": {
+        "technique": "runtime monitor with spec-equality oracle: independently constructed equal IRs (or via save/load) and a perturbation catalogue generated from the spec structure; deep_eq judged in both directions at IR and node level",
+        "text": "Held on ~480 equal pairs and ~6000 perturbed pairs per quick run covering 76 perturbation labels (every scalar of every node kind, child/edge/expression/flag/attribute/AuxData-key add and remove, every UUID, payload kind, block kind with UUID kept): expected = specs equal modulo AuxData values; symmetry and reflexivity checked on every call pair.",
+        "design_ref": "DESIGN.md section 5 C18",
+        "note": "Module order is treated as not compared; only unreferenced nodes are removed so specs stay self-contained.",
+    },
     "C15": {
         "technique": "differential runtime monitor: real parser vs independent iterative recogniser, complete enumeration of short strings + generated names and near-miss mutants",
         "text": "Held on every string over {a,b,<,>,','} up to length 8 (quick) / 10 (thorough), enumerated completely, and on generated names (depth<=60, <=120 siblings) with their single-token mutants: accept/reject, tree shape, print-back and the exception type all agree with the reference recogniser, also through the public encode/decode entry points. Exploration level: longer strings are sampled, not enumerated.",
